@@ -88,10 +88,12 @@ TreeFault ==
 
 \* C13 frame condition: everything the client held before the call (every node-set, element by
 \* element, and the document, by digest) is unchanged after it
-FrameOK(ev) == snap = <<>> \/ ~Has(ev, "held") \/
+\* ... and the binding maps handed to the call (namespaces, variables, functions: digests taken before and after)
+BindingsKept(ev) == ~Has(ev, "envpre") \/ ev.envpre = ev.envpost
+FrameOK(ev) == BindingsKept(ev) /\ (snap = <<>> \/ ~Has(ev, "held") \/
    (/\ Len(ev.held) >= Len(snap.held)
     /\ \A i \in 1..Len(snap.held) : ev.held[i] = snap.held[i]
-    /\ ev.dochash = snap.hash)
+    /\ ev.dochash = snap.hash))
 SnapAfter(ev) == IF Has(ev, "held") THEN [held |-> ev.held, hash |-> ev.dochash] ELSE snap
 
 \* the thin wrappers: ExecAsString = string(result), ExecAsNumber = number(result), ExecAsNodeset = the
